@@ -1,11 +1,364 @@
-"""C18 - Tree views obey get/set laws (no function is under contract yet: the copy-on-write recursion of
-_set_by_path needs an ownership argument over a heap of nested containers that the engine does not have;
-the property is decided by an exhaustive small-scope native stand-in, reported as bounded)."""
+"""C18 - Tree views obey get/set laws and never mutate the viewed data.
+
+Contracts on the real `tree._default_tree` and `TreeMapView._set_by_path` over the heap model of
+pyvc/treeheap.py (assumption A9).  The read of a key path is the spec function `rd` (recursive definition
+in z3); the copy-on-write argument is a dynamic-frame one: every call gets a ghost region S0 (closed set of
+nodes that holds the tree and the value), writes only to nodes it allocated itself, and promises
+
+  * frame:   every node allocated at entry has exactly the rows it had (the original is untouched at any depth),
+  * region:  S0 + the nodes allocated by the call is closed and holds the result,
+  * E1:      in EVERY heap that agrees with the final one on that region, reading the key path from the
+             result is defined and yields the value (so later writes of the caller to its own fresh nodes
+             cannot disturb it: this is what carries the induction through the recursion),
+  * sharing: every other key of the copied node holds the very same child object as before.
+"""
+import z3
+from pyvc.contracts import Contract
+from pyvc.values import *   # pylint: disable=wildcard-import
+from pyvc import treeheap as th
+from pyvc.treeheap import VTree, VTKey, VKeyPath, VRegion
+
+TR = 'ml_metrics/_src/chainables/tree.py'
 P = 'C18'
 
 
 def register(R):
+  R.cls('TreeMapView', dict(data='tree', strict='bool', map_fn='none', key_paths='none'))
+
+  def heap(it):
+    h = it.cur_heap()
+    return h['H'], h['alloc']
+
+  def node(it, v):
+    return it.as_tree(v)
+
+  @R.spec
+  def t_kind(it, a, k):
+    return VInt(th.tkind(node(it, a[0])))
+
+  @R.spec
+  def t_alloc(it, a, k):
+    return VBool(heap(it)[1][node(it, a[0])])
+
+  @R.spec
+  def is_self_key(it, a, k):
+    return VBool(th.is_self(a[0].t))
+
+  @R.spec
+  def head(it, a, k):
+    '''first element of a key path (meaningful when it is not empty)'''
+    return VTKey(a[0].arr[a[0].lo])
+
+  @R.spec
+  def plain_path(it, a, k):
+    '''no Literal element, and SELF is the only Reserved element that occurs'''
+    kp = a[0]
+    j = z3.Int(it.path.fresh_name('j'))
+    e = kp.arr[j]
+    return VBool(z3.ForAll([j], z3.Implies(z3.And(kp.lo <= j, j < kp.hi), z3.And(
+        th.kkind(e) != th.K_LITERAL, z3.Implies(th.kkind(e) == th.K_RESERVED, th.is_self(e))))))
+
+  @R.spec
+  def region_ok(it, a, k):
+    '''S is a set of allocated nodes closed under children'''
+    H, alloc = heap(it)
+    S = a[0].mem
+    o = z3.Const(it.path.fresh_name('o'), Obj)
+    return VBool(z3.And(z3.ForAll([o], z3.Implies(S(o), alloc[o])), th.closed(S, H, it.path.fresh_name('c'))))
+
+  @R.spec
+  def in_region(it, a, k):
+    return VBool(a[0].mem(node(it, a[1])))
+
+  @R.spec
+  def grown(it, a, k):
+    '''S0 plus everything allocated since the pre-state'''
+    _, alloc = heap(it)
+    old_alloc = it.pre_alloc()
+    return VRegion(lambda o, _s=a[0].mem: z3.Or(_s(o), z3.And(alloc[o], z3.Not(old_alloc[o]))))
+
+  @R.spec
+  def frame_ok(it, a, k):
+    '''every node allocated in the pre-state is still allocated and has exactly the rows it had'''
+    H, alloc = heap(it)
+    old = it.pre_heap()
+    o = z3.Const(it.path.fresh_name('o'), Obj)
+    return VBool(z3.ForAll([o], z3.Implies(old['alloc'][o], z3.And(alloc[o], th.rows_equal(H, old['H'], o)))))
+
+  @R.spec
+  def is_new(it, a, k):
+    '''allocated by this call'''
+    _, alloc = heap(it)
+    t = node(it, a[0])
+    return VBool(z3.And(alloc[t], z3.Not(it.pre_alloc()[t])))
+
+  @R.spec
+  def reads_back(it, a, k):
+    '''in every heap agreeing with the current one on region S: reading key path kp from node t is defined
+    and yields v'''
+    S, t, kp, v = a[0].mem, node(it, a[1]), a[2], node(it, a[3])
+    H, _ = heap(it)
+    G = z3.Const(it.path.fresh_name('G'), th.Heap)
+    return VBool(z3.ForAll([G], z3.Implies(th.agree(G, H, S, it.path.fresh_name('o')), z3.And(
+        th.rdok(G, t, kp.arr, kp.hi, kp.lo), th.rd(G, t, kp.arr, kp.hi, kp.lo) == v))))
+
+  @R.spec
+  def others_shared(it, a, k):
+    '''node `new` has, under every key other than `key`, exactly the entry the (pre-state) node `orig` had:
+    same presence and the very same child object'''
+    new, orig, key = node(it, a[0]), node(it, a[1]), a[2].t
+    H, _ = heap(it)
+    H0 = it.pre_heap()['H']
+    kv = z3.Const(it.path.fresh_name('kv'), th.KVal)
+    i = z3.Int(it.path.fresh_name('i'))
+    n0 = th.h_len(H0)[orig]
+    idx = th.norm(th.kint(key), th.h_len(H)[new])
+    return VBool(z3.And(
+        z3.Implies(th.tkind(orig) == th.T_DICT, z3.ForAll([kv], z3.Implies(kv != th.kval(key), z3.And(
+            th.h_has(H)[new][kv] == th.h_has(H0)[orig][kv], th.h_dch(H)[new][kv] == th.h_dch(H0)[orig][kv])))),
+        z3.Implies(th.listlike(orig), z3.And(
+            th.h_len(H)[new] >= n0, th.h_len(H)[new] <= n0 + 1,
+            z3.ForAll([i], z3.Implies(z3.And(0 <= i, i < n0, i != idx), th.h_item(H)[new][i] == th.h_item(H0)[orig][i]))))))
+
+  @R.spec
+  def key_kind(it, a, k):
+    '''0 plain, 1 Index, 2 Reserved, 3 Literal'''
+    kp, j = a[0], it.to_int(a[1])
+    return VInt(th.kkind(kp.arr[kp.lo + j]))
+
+  @R.spec
+  def key_is_self(it, a, k):
+    kp, j = a[0], it.to_int(a[1])
+    return VBool(th.is_self(kp.arr[kp.lo + j]))
+
+  @R.spec
+  def key_int(it, a, k):
+    kp, j = a[0], it.to_int(a[1])
+    return VInt(th.kint(kp.arr[kp.lo + j]))
+
+  @R.spec
+  def rd_at(it, a, k):
+    '''what reading the rest kp[i:] of a key path from node t yields (i is an absolute position)'''
+    H, _ = heap(it)
+    return VTree(th.rd(H, node(it, a[0]), a[1].arr, a[1].hi, it.to_int(a[2])))
+
+  @R.spec
+  def rdok_at(it, a, k):
+    H, _ = heap(it)
+    return VBool(th.rdok(H, node(it, a[0]), a[1].arr, a[1].hi, it.to_int(a[2])))
+
+  @R.spec
+  def rd_path(it, a, k):
+    H, _ = heap(it)
+    return VTree(th.rd(H, node(it, a[0]), a[1].arr, a[1].hi, a[1].lo))
+
+  @R.spec
+  def rdok_path(it, a, k):
+    H, _ = heap(it)
+    return VBool(th.rdok(H, node(it, a[0]), a[1].arr, a[1].hi, a[1].lo))
+
+  region = {'S0': lambda it, env: it.default_region()}
+  WIT = {'path_len': 'len(key_path)', 'kind0': 'key_kind(key_path, 0)', 'self0': 'key_is_self(key_path, 0)', 'int0': 'key_int(key_path, 0)',
+         'kind1': 'key_kind(key_path, 1)', 'self1': 'key_is_self(key_path, 1)', 'int1': 'key_int(key_path, 1)'}
+  RAISES = ['KeyError', 'TypeError', 'ValueError', 'AssertionError', 'IndexError']
+
+  R.add(Contract(
+      f'{TR}::_default_tree', P, types=dict(key_path='keypath', value='tree'), ret='tree',
+      ghost={'S0': 'region'}, site_ghost=region, modifies=['theap'], witness=WIT,
+      requires=['region_ok(S0)', 'in_region(S0, value)'],
+      may_raise=['ValueError', 'TypeError'],
+      ensures=[
+          'frame_ok()',
+          'region_ok(grown(S0))', 'in_region(grown(S0), result)',
+          'implies(len(key_path) == 0 or is_self_key(head(key_path)), result is value)',
+          'implies(len(key_path) > 0 and not is_self_key(head(key_path)), is_new(result))',
+          'implies(plain_path(key_path), reads_back(grown(S0), result, key_path, value))',
+      ],
+      replay='replay_default_tree', bounded='bounded_tree_laws',
+      note='a fresh chain of one-entry containers that reads back the value along the key path'))
+
+  R.add(Contract(
+      f'{TR}::TreeMapView._set_by_path', P,
+      types=dict(self='TreeMapView', tree='tree', key_path='keypath', value='tree', in_place='bool'), ret='tree',
+      ghost={'S0': 'region'}, site_ghost=region, modifies=['theap'], witness=dict(WIT, tree_kind='t_kind(tree)'),
+      requires=['not in_place', 'region_ok(S0)', 'in_region(S0, tree)', 'in_region(S0, value)'],
+      may_raise=RAISES,
+      ensures=[
+          # the original is untouched at every depth
+          'frame_ok()',
+          'region_ok(grown(S0))', 'in_region(grown(S0), result)',
+          # an empty path / SELF replaces the root by the value itself
+          'implies(len(key_path) == 0 or is_self_key(head(key_path)), result is value)',
+          # get after set
+          'implies(plain_path(key_path), reads_back(grown(S0), result, key_path, value))',
+          # every other entry of the copied root is the same object as before, and the root keeps its kind
+          'implies(len(key_path) > 0 and plain_path(key_path) and not is_self_key(head(key_path)) and t_kind(tree) != 4,'
+          ' is_new(result) and t_kind(result) == t_kind(tree) and others_shared(result, tree, head(key_path)))',
+      ],
+      replay='replay_set_by_path', bounded='bounded_tree_laws',
+      note='copy-on-write along the path: writes only to nodes the call allocated'))
+
+  # ---- reads ------------------------------------------------------------------------------------------
+  READ_ERR = {e: ['not rdok_path(self.data, key)'] for e in ('KeyError', 'IndexError', 'TypeError')}
+  R.add(Contract(
+      f'{TR}::TreeMapView.__get', P, types=dict(self='TreeMapView', key='keypath'), ret='tree',
+      loops={0: dict(invariant=['rd_at(data, key, idx_k) is rd_path(self.data, key)',
+                                'rdok_at(data, key, idx_k) == rdok_path(self.data, key)'])},
+      ensures=['result is rd_path(self.data, key)', 'rdok_path(self.data, key)'],
+      raises_ensures=READ_ERR, witness=dict(path_len='len(key)', kind0='key_kind(key, 0)', self0='key_is_self(key, 0)', int0='key_int(key, 0)',
+                                            kind1='key_kind(key, 1)', self1='key_is_self(key, 1)', int1='key_int(key, 1)', tree_kind='t_kind(self.data)'),
+      bounded='bounded_tree_laws', replay='replay_get',
+      note='the loop computes exactly the spec function rd: stop at SELF, a Literal yields its value, otherwise descend; it raises exactly when the path is not defined'))
+
+  R.add(Contract(
+      f'{TR}::TreeMapView.__getitem__', P, variant='single', types=dict(self='TreeMapView', keys='keypath'), ret='tree',
+      ensures=['result is rd_path(self.data, keys)', 'rdok_path(self.data, keys)'],
+      raises_ensures={e: ['not rdok_path(self.data, keys)'] for e in ('KeyError', 'IndexError', 'TypeError')},
+      bounded='bounded_tree_laws', note='a Key is one path, never a multi-key'))
+  R.add(Contract(
+      f'{TR}::TreeMapView.__getitem__', P, variant='multi', types=dict(self='TreeMapView', keys='tuple[keypath,keypath,keypath]'), ret='tuple[tree,tree,tree]',
+      ensures=['result[0] is rd_path(self.data, keys[0])', 'result[1] is rd_path(self.data, keys[1])', 'result[2] is rd_path(self.data, keys[2])',
+               'rdok_path(self.data, keys[0]) and rdok_path(self.data, keys[1]) and rdok_path(self.data, keys[2])'],
+      raises_ensures={e: ['not (rdok_path(self.data, keys[0]) and rdok_path(self.data, keys[1]) and rdok_path(self.data, keys[2]))']
+                      for e in ('KeyError', 'IndexError', 'TypeError')},
+      bounded='bounded_tree_laws', note='multi-key reads return the values aligned with the keys (three keys; the tuple is unrolled)'))
+
+  # ---- copying set through the public API ------------------------------------------------------------------
+  SET_REQ = ['region_ok(S0)', 'in_region(S0, self.data)']
+  R.add(Contract(
+      f'{TR}::TreeMapView.set', P, variant='single',
+      types=dict(self='TreeMapView', keys='keypath', values='tree', in_place='bool'), ret='TreeMapView',
+      ghost={'S0': 'region'}, site_ghost=region, modifies=['theap'],
+      requires=SET_REQ + ['not in_place', 'in_region(S0, values)'], may_raise=RAISES,
+      ensures=['frame_ok()', 'region_ok(grown(S0))', 'in_region(grown(S0), result.data)', 'result is not self', 'self.data is old(self.data)',
+               'implies(plain_path(keys), reads_back(grown(S0), result.data, keys, values))',
+               'implies(len(keys) > 0 and plain_path(keys) and not is_self_key(head(keys)) and t_kind(self.data) != 4,'
+               ' is_new(result.data) and t_kind(result.data) == t_kind(self.data) and others_shared(result.data, self.data, head(keys)))'],
+      bounded='bounded_tree_laws', note='a copying set returns a new view; the viewed data of the receiver is the same untouched object'))
+  R.add(Contract(
+      f'{TR}::TreeMapView.set', P, variant='two-keys',
+      types=dict(self='TreeMapView', keys='tuple[keypath,keypath]', values='tuple[tree,tree]', in_place='bool'), ret='TreeMapView',
+      ghost={'S0': 'region'}, site_ghost=region, modifies=['theap'],
+      requires=SET_REQ + ['not in_place', 'in_region(S0, values[0])', 'in_region(S0, values[1])'], may_raise=RAISES,
+      ensures=['frame_ok()', 'region_ok(grown(S0))', 'in_region(grown(S0), result.data)', 'self.data is old(self.data)',
+               # values are aligned with the keys: the last key reads back the last value
+               'implies(plain_path(keys[1]), reads_back(grown(S0), result.data, keys[1], values[1]))'],
+      bounded='bounded_tree_laws', note='two keys, two values: set one after the other on successive copies'))
+  R.add(Contract(
+      f'{TR}::TreeMapView.copy_and_set', P,
+      types=dict(self='TreeMapView', keys='keypath', values='tree'), ret='TreeMapView',
+      ghost={'S0': 'region'}, site_ghost=region, modifies=['theap'],
+      requires=SET_REQ + ['in_region(S0, values)'], may_raise=RAISES,
+      ensures=['frame_ok()', 'region_ok(grown(S0))', 'in_region(grown(S0), result.data)', 'result is not self', 'self.data is old(self.data)',
+               'implies(plain_path(keys), reads_back(grown(S0), result.data, keys, values))',
+               'implies(len(keys) > 0 and plain_path(keys) and not is_self_key(head(keys)) and t_kind(self.data) != 4,'
+               ' is_new(result.data) and t_kind(result.data) == t_kind(self.data) and others_shared(result.data, self.data, head(keys)))'],
+      bounded='bounded_tree_laws'))
+
+  # ---- the laws of the property, over the contracts only -------------------------------------------------------
+  LT = dict(v='TreeMapView', kp='keypath', x='tree', S0='region')
+  LR = ['region_ok(S0)', 'in_region(S0, v.data)', 'in_region(S0, x)', 'plain_path(kp)']
+  R.lemma('get-after-copying-set', P, LT, LR, ['v.copy_and_set(kp, x)[kp] is x'],
+          note='reading a path after a copying set returns the set value (and is defined)')
+  # Reading inside a closed region depends only on the rows of that region (induction on the length of the
+  # rest of the path: the lemma below is the induction step, the base case `tail empty` is the first disjunct
+  # of the unfolding and is covered by the same obligation with len(q) == 0).
+  @R.spec
+  def closed_in(it, a, k):
+    return VBool(th.closed(a[0].mem, a[1].t, it.path.fresh_name('c')))
+
+  @R.spec
+  def agree_on(it, a, k):
+    return VBool(th.agree(a[0].t, a[1].t, a[2].mem, it.path.fresh_name('o')))
+
+  @R.spec
+  def same_read_from(it, a, k):
+    '''reading q[i:] from node t gives the same (and is defined alike) in heaps G and H'''
+    G, H, t, q, i = a[0].t, a[1].t, node(it, a[2]), a[3], q_index(it, a[3], a[4])
+    return VBool(z3.And(th.rdok(G, t, q.arr, q.hi, i) == th.rdok(H, t, q.arr, q.hi, i),
+                        z3.Implies(th.rdok(H, t, q.arr, q.hi, i), th.rd(G, t, q.arr, q.hi, i) == th.rd(H, t, q.arr, q.hi, i))))
+
+  def q_index(it, q, off):
+    return q.lo + it.to_int(off)
+
+  @R.spec
+  def same_read_everywhere(it, a, k):
+    '''induction hypothesis: for EVERY node of the region, reading q[i:] agrees in G and H'''
+    G, H, S, q, i = a[0].t, a[1].t, a[2].mem, a[3], q_index(it, a[3], a[4])
+    o = z3.Const(it.path.fresh_name('o'), Obj)
+    return VBool(z3.ForAll([o], z3.Implies(S(o), z3.And(
+        th.rdok(G, o, q.arr, q.hi, i) == th.rdok(H, o, q.arr, q.hi, i),
+        z3.Implies(th.rdok(H, o, q.arr, q.hi, i), th.rd(G, o, q.arr, q.hi, i) == th.rd(H, o, q.arr, q.hi, i))))))
+
+  R.lemma('reads-inside-a-closed-region-depend-on-that-region-only', P,
+          dict(G='heap', H='heap', S='region', t='tree', q='keypath'),
+          ['closed_in(S, H)', 'agree_on(G, H, S)', 'in_region(S, t)', 'same_read_everywhere(G, H, S, q, 1)'],
+          ['same_read_from(G, H, t, q, 0)'],
+          note='induction step over the rest of the key path (hypothesis: the claim for q[1:] from every node of the region); '
+               'with frame_ok (the final heap agrees with the initial one on everything allocated before) this is '
+               '"the original reads as before at every depth" and, through others_shared, "every other path reads as before"')
+
+  @R.spec
+  def old_heap(it, a, k):
+    '''the heap at the start of the lemma'''
+    return th.VHeap(it.entry_old['__theap__']['H'])
+
+  @R.spec
+  def bind_w(it, a, k):
+    it.ghost['__w__'] = a[0]
+    return a[0]
+
+  @R.spec
+  def bound_w(it, a, k):
+    return it.ghost['__w__']
+
+  @R.spec
+  def same_read_from2(it, a, k):
+    '''reading q from the data of view w in heap G is defined like, and yields the same as, reading q from node t in heap H'''
+    G, w, H, t, q = a[0].t, node(it, it.getfield(a[1], 'data')), a[2].t, node(it, a[3]), a[4]
+    return VBool(z3.And(th.rdok(G, w, q.arr, q.hi, q.lo) == th.rdok(H, t, q.arr, q.hi, q.lo),
+                        z3.Implies(th.rdok(H, t, q.arr, q.hi, q.lo), th.rd(G, w, q.arr, q.hi, q.lo) == th.rd(H, t, q.arr, q.hi, q.lo))))
+
+  @R.spec
+  def snap(it, a, k):
+    '''the current heap as a value'''
+    return th.VHeap(heap(it)[0])
+
+  @R.spec
+  def after(it, a, k):
+    '''after(e1, e2): evaluates e1 (for its effect on the heap), then yields e2'''
+    return a[1]
+
+  @R.spec
+  def induction_conclusion(it, a, k):
+    '''what the induction whose step is the lemma above concludes for heaps G, H and region S: if S is closed in
+    H and G agrees with H on S then reading q[i:] from any node of S is the same in both'''
+    G, H, S, q, i = a
+    prem = z3.And(th.closed(S.mem, H.t, it.path.fresh_name('c')), th.agree(G.t, H.t, S.mem, it.path.fresh_name('o')))
+    return VBool(z3.Implies(prem, same_read_everywhere(it, [G, H, S, q, i], {}).t))
+
+  @R.spec
+  def same_key(it, a, k):
+    return VBool(th.kval(a[0].t) == th.kval(a[1].t))
+
+  R.lemma('the-original-reads-as-before-at-every-depth', P, dict(LT, q='keypath'), LR,
+          ['implies(induction_conclusion(after(v.copy_and_set(kp, x), snap()), old_heap(), S0, q, 0),'
+           ' same_read_from(snap(), old_heap(), v.data, q, 0))'],
+          note='from frame_ok + region_ok of copy_and_set: whatever key path q is read from the original data gives what it gave before')
+  R.lemma('other-keys-of-a-dict-root-read-as-before', P, dict(LT, q='keypath', w='TreeMapView'),
+          LR + ['len(kp) > 0', 'len(q) > 0', 'not is_self_key(head(kp))', 't_kind(v.data) == 1',
+                'not same_key(head(q), head(kp))', 'key_kind(q, 0) == 0'],
+          ['implies(induction_conclusion(after(bind_w(v.copy_and_set(kp, x)), snap()), old_heap(), S0, q, 1),'
+           ' same_read_from2(snap(), bound_w(), old_heap(), v.data, q))'],
+          note='a key path that leaves the root through another key reads in the new view exactly what it read in the original '
+               '(others_shared gives the same child object, the lemma above its unchanged content); deeper divergence is the same '
+               'argument at the recursive call and is not composed mechanically')
+
   R.bounded_checks[P] = [
       ('bounded_tree_laws', 'all trees of depth<=2 (3 thorough), width<=2 over dict/list/tuple/ndarray/leaf x all existing and fresh paths: get/set laws, frame, enumeration, apply'),
   ]
-  R.trusted[P] = ['bounded: small-scope hypothesis (depth<=2/3, width<=2)', 'independent oracle: plain Python indexing and deep comparison']
+  R.trusted[P] = [
+      'A9 heap model of nested containers: dict / list / tuple / NullMap / leaf nodes only (no ndarray, DataFrame or user Mapping nodes), '
+      'copy.copy / list() / tuple() / append / get / item assignment as functional updates of one heap value',
+      'leaves are not subscriptable; bool / float keys are not integers',
+      'bounded: small-scope hypothesis (depth<=2/3, width<=2)', 'independent oracle: plain Python indexing and deep comparison']
